@@ -210,7 +210,8 @@ CHECKS = {
        "each acknowledgement the application sends goes through send() to the same code, and QoS 1 / QoS 2 exchanges complete from every "
        "admissible pair of states (C01_pair_qos1_completes_manual, C01_pair_qos2_completes_manual, Conn/PairManual.v), and for v5.0 with the "
        "receiver's Receive Maximum slot held until its application acknowledges (C01_pair_qos{1,2}_completes_manual_v5, Conn/PairManual5.v); "
-       "any SEQUENCE of v3.1.1 exchanges with the two applications in the loop, identifiers reused (C01_pair_sequence_exactly_once_manual, Conn/PairManualSeq.v); "
+       "any SEQUENCE of exchanges with the two applications in the loop, identifiers reused, both versions (C01_pair_sequence_exactly_once_manual, "
+       "C01_pair_sequence_exactly_once_manual_v5, Conn/PairManualSeq.v, PairManualSeq5.v); "
        "(1v5) v5.0 WITH SEVERAL EXCHANGES IN FLIGHT: the invariant adds the Receive Maximum accounts (sender's count = exchanges in "
        "flight <= the peer's limit; receiver's outstanding set = its handled set), the quota is never exceeded, and after the drain the "
        "vacancy is the full maximum (C01_pair_concurrent_exactly_once_v5); (1b) THE SAME ACROSS TRANSPORT LOSS - persistent sessions, one more action 'the transport "
@@ -246,7 +247,7 @@ CHECKS = {
        "the correspondence; as a statement about ALL histories it is FALSE of the faithful model and of the code, and its refutation is "
        "proved, and so are, BETWEEN TWO LIBRARY ENDPOINTS, 'the counter is the number of exchanges in flight, never above the peer's "
        "Receive Maximum, no step is Receive Maximum exceeded, and the vacancy returns to M' for every schedule with several exchanges in "
-       "flight (C12_counter_is_exchanges_in_flight; with both sides publishing at once C12_two_way_counters) and for every sequential run (C12_vacancy_returns_after_sequence) (C12_count_exact_refuted_*: three histories of a fresh object inside the application contract after which the vacancy is the "
+       "flight (C12_counter_is_exchanges_in_flight; with both sides publishing at once C12_two_way_counters) and for every sequential run (C12_vacancy_returns_after_sequence; with manual responses C12_vacancy_returns_after_manual_sequence) (C12_count_exact_refuted_*: three histories of a fresh object inside the application contract after which the vacancy is the "
        "full maximum while a stored, accepted PUBLISH of this connection is still awaited) - these are the known findings F-12b, F-12c, "
        "F-12d, reported as KNOWN-FINDING; any other discrepancy is a violation.",
   ref="DESIGN.md §3 C12, §4 F-12b, §10.4 F-12c F-12d",
